@@ -16,6 +16,17 @@
 //     sub-matrices of matrices) of one operand before the judged call;
 //   - Equals with tiny non-zero values, three epsilons (1e-8, 0.75, 0), infinities and NaN,
 //     judged by the documented element comparison of the dense implementation.
+//
+// Added after the third seeding round (view.go, life.go, conc.go, joint.go):
+//   - iteration view: every result container is read a second time through ConstIterator,
+//     AsDense* and Equals (both ways) against a dense twin, and must be the same object for
+//     consumers that iterate as for consumers that use random access;
+//   - receiver lives: every sequence of at most two whole-container writers (Reset,
+//     Set(zero), Set(non-zero), SetIdentity; Reset on every slice) applied to the receiver
+//     between its construction and the judged call;
+//   - concrete entry points: VADDV ... MDOTM, OUTER, SET, EQUALS of every container type
+//     (dense and sparse, values and derivatives) next to the interface methods;
+//   - joint-iterator traversals through the public API with clone look-ahead.
 package main
 
 import (
@@ -259,6 +270,16 @@ func judge(cs *Case, t *tinfo, ex *expect) verdict {
 	if o.getter != "" {
 		return verdict{fail: true, key: mk(-1, "getter"), what: o.getter}
 	}
+	if o.walk != "" {
+		phase := "plain-walk"
+		if cs.B != "-" {
+			phase = map[byte]string{'J': "CloneJointIterator", 'C': "CloneConstJointIterator"}[cs.B[0]]
+		}
+		return verdict{fail: true, key: fmt.Sprintf("%s|%s|%s|%s", cs.Op, storClass(slots, cs.Stor, true), phase, o.walkKind), what: o.walk}
+	}
+	if o.walkNA {
+		return verdict{outcome: "walk-program-not-applicable"}
+	}
 	if len(o.res) != len(ex.res) {
 		return verdict{fail: true, key: "HARNESS", what: fmt.Sprintf("harness: result length %d vs model %d", len(o.res), len(ex.res))}
 	}
@@ -490,6 +511,8 @@ func dryRun(c *vf.Ctx, fams []*family) {
 				c.Count("dry:TOTAL-history", n)
 			case f.needC || f.ctOp:
 				c.Count("dry:TOTAL-const", n)
+			case isWalk(f.op):
+				c.Count("dry:TOTAL-joint-walk", n)
 			case f.op == "VequalsE" || f.op == "MequalsE":
 				c.Count("dry:TOTAL-equals-eps", n)
 			default:
@@ -659,6 +682,7 @@ func explore(c *vf.Ctx) {
 		for k, n := range counts {
 			c.Count(k, n)
 		}
+		c.Count("iteration-views-completed", viewsDone)
 		if c.Shard == 0 {
 			c.Count("families", int64(len(fams)))
 		}
@@ -677,6 +701,8 @@ func explore(c *vf.Ctx) {
 			group = "sparse-const-operand"
 		case f.op == "VequalsE" || f.op == "MequalsE":
 			group = "equals-epsilon"
+		case isWalk(f.op):
+			group = "joint-iterator-walk"
 		}
 		var groupEvals int64
 		defer func(g string) { counts["evaluations:"+g] += groupEvals }(group)
@@ -835,11 +861,16 @@ func main() {
 			"further families (listed in families()): (i) the same operations with SparseConst<T>Vector operands (third storage class of every ConstVector operand, receiver of Equals; all 7 element types, crossed with all 9 receiver types at n<=2), AsSparseConst*/NewSparseConst*; " +
 			"(ii) operand histories: every sequence of 1..2 read-only uses {Dim, String, ConstIterator walk, Float64At over all indices, ConstSlice(i,j) then ConstAt over the slice for all i<=j (matrices: ConstRow/ConstCol/every sub-matrix)} applied to one operand (each operand in turn, every storage class) between construction and the judged call, every value read in the history compared as well; " +
 			"(iii) Equals (vector and matrix, every storage combination incl. SparseConst) over the alphabets {0|no entry, explicit zero, ±1e-17, 1e-9, 0.75, 1} and {0|no entry, explicit zero, 1, ±Inf, NaN} × epsilon {1e-8, 0.75, 0}, reference |a-b| < epsilon (or both NaN / same infinity; integers exact) on the dense model; " +
+			"(iv) iteration view (every family): after the element-wise read through ConstAt/Float64At every result container is read again through a ConstIterator walk (order, element = ConstAt element incl. derivatives, no non-zero element skipped), through AsDenseVector/AsDenseMatrix of the same element type (all elements incl. derivatives) and through Equals against a dense twin of the ConstAt values, asked both ways; " +
+			"(v) receiver lives: every operation with a container receiver after every sequence of 1..2 whole-container writers {Reset, Set(all-zero dense), Set(all-zero sparse), Set(constants 1/-2 dense), Set(the same sparse), matrices: SetIdentity} and, as one-step lives, Reset on every non-empty slice/sub-matrix and on one empty slice, applied to the receiver (prior content from the full alphabet, with variables for Real) before the judged call; the model's receiver is the content after the life; all 9 element types; " +
+			"(vi) concrete entry points: the same products for VADDV VSUBV VMULV VDIVV VADDS VSUBS VMULS VDIVS MDOTV VDOTM MADDM..MDIVS MDOTM OUTER SET EQUALS, called by name on the receiver's dynamic type, in the storage combinations where receiver and container operands share one storage class (all dense, all sparse) and the type has a method of that name taking the operands' concrete types; all 9 element types, Real types also with variables in receiver and operands (gradient and Hessian compared); " +
+			"(vii) joint-iterator traversals: Vector.JointIterator, ConstVector.ConstJointIterator (also SparseConst receivers and operands) and Matrix.JointIterator over receiver × operand patterns × storage, walked by the programs {plain; clone (CloneJointIterator | CloneConstJointIterator) after k steps, clone advanced j steps, original continued} for all k in 0..size, j in 1..size: every stream strictly increasing, no position skipped where receiver or operand is non-zero, yielded elements = the elements at the position; " +
 			"every configuration is distinct by construction; one is counted non-trivial when the library returned a result that was compared element-wise with the dense reference model over at least one element (or an Equals verdict); runs ending in a panic shared with the all-dense configuration are counted as evaluations only",
 		Assume: []string{
 			"a panic is an acceptable outcome of a configuration iff the all-dense configuration of the same mathematical content panics as well (loud failure itself is C20's subject)",
 			"exact regime: all values are small integers/dyadics, division only by ±1, ±2 or IEEE division by zero compared by class; derivatives are not compared at elements produced by a division by zero",
-			"operands are whole containers (no slices/transposes: C10; slices only appear as objects derived in an operand history), receiver never aliases an operand (C08), generic interface methods only (concrete VADDV… are C09)",
+			"operands are whole containers (no slices/transposes: C10; slices only appear as objects derived in an operand history or reset in a receiver life), receiver never aliases an operand (C08); concrete methods are compared with the same dense model as the interface methods (the generic-vs-concrete differential over all argument shapes is C09)",
+			"a failure under a receiver life is attributed to the shortest sub-life (possibly none) that still shows it; a walk program whose k exceeds the length of the stream, or whose clone kind the iterator does not offer, is counted as evaluation only",
 			"a SparseConst vector with an explicitly stored zero is built with UnsafeSparseConst<T>Vector from sorted index/value lists; every other one with NewSparseConst<T>Vector",
 			"a failure under a history is attributed to the shortest sub-history (possibly the empty one) that still shows it",
 		},
